@@ -31,6 +31,23 @@ def run(tier, v, wd, replay=None):
             raise vlib.Infra("DnsConc.tla without the question check no longer violates ReplyMatches (%s): vacuous model" % r.violated)
     repo = vlib.scratch_repo(wd, "stub")
     run_vectors(v, wd, repo, "./control/", "TestVerifC09", beh, tags="verif,dae_stub_ebpf", timeout=3000)
-    v.assumptions += ["one upstream reached as-is; real DoUDP (udpConnPool) / DoTCP (pipelinedConn) forwarders over in-memory sockets and a scripted server; virtual time (testing/synctest)",
+    # cache hits on the packet path: all interleavings of copy+patch and send for concurrent clients (DnsHitPath.tla)
+    hfile = os.path.join(wd.path, "c09hit.ndjson")
+    with open(hfile, "w") as out:
+        for sz in ("small", "big"):
+            part = hfile + "." + sz
+            r = vlib.tlc(wd, "DnsHitPath", "DnsHitPath_%s.cfg" % sz, emit_to=part, timeout=600)
+            v.add_tlc(r)
+            if r.violated:
+                raise vlib.Infra("DnsHitPath.tla violates %s in the model" % r.violated)
+            out.write(open(part).read())
+    r = vlib.tlc(wd, "DnsHitPath", "DnsHitPath_inplace.cfg", timeout=600, workers=1)
+    if r.violated != "OwnId":
+        raise vlib.Infra("DnsHitPath.tla with in-place patching no longer violates OwnId: vacuous model")
+    res = run_vectors(v, wd, repo, "./control/", "TestVerifC09HitPath", hfile, tags="verif,dae_stub_ebpf", timeout=900, outname="out-hit.json")
+    if (res.get("counters") or {}).get("c09hit_undecided", 0) > len(open(hfile).readlines()) // 2:
+        raise vlib.Infra("the packet-path replay could not be driven: %s" % (res.get("notes") or [])[:3])
+    v.assumptions += ["packet path: real loopback UDP sockets; the point between patching and sending is the trace message sendPkt logs (a logging hook parks the goroutine there)",
+                      "one upstream reached as-is; real DoUDP (udpConnPool) / DoTCP (pipelinedConn) forwarders over in-memory sockets and a scripted server; virtual time (testing/synctest)",
                       "data is consumed as soon as it arrives (every goroutine runs to a durable block between steps): races inside one step are not explored",
                       "tcp: a deadline passes only while the leader is alone on the connection"]
